@@ -14,16 +14,49 @@ PARSER = 'metamath.parser'
 SLICER = 'metamath.metamath_extract_slice'
 
 
-# set iterations of the slicer read and triaged by hand: one line of reason each
-SLICER_SET_ITERATION_TRIAGED = {
-    # (function, rename-stable site key - see core/localkeys.py)
-    ('supporting_database_for_provable', 'expr:_ @ for _ in _: if _.issubset(_): _.append(DisjointStatement(tuple((Metavariable(_) for _ in _))))'):
-        '(`global_disjoints`) only the order of the emitted `$d` statements depends on it, and `$d` statements commute',
-    ('supporting_database_for_provable', 'expr:_ @ (DisjointStatement(tuple(map(Metavariable, _))) for _ in _ if _.issubset(_))'):
-        '(`global_disjoints`, generator spelling of the same loop) only the order of the emitted `$d` statements depends on it',
-    ('supporting_database_for_provable', 'expr:_ @ (DisjointStatement(tuple((Metavariable(_) for _ in _))) for _ in _ if _.issubset(_))'):
-        '(`global_disjoints`, generator spelling of the same loop) only the order of the emitted `$d` statements depends on it',
-}
+def only_disjoint_statements(py: PyRepo, site) -> bool:
+    """`$d` statements commute (each restricts its own variables; a database means the same in whichever order they stand), so
+    an iteration over a set whose only order-carrying product is a run of `DisjointStatement(..)` nodes is order-free for this
+    property: a comprehension / generator whose element is such a construction, or a loop whose every effect is appending (or
+    yielding) one, and whose variable is not read afterwards"""
+    ctor = 'DisjointStatement'
+    if py.find_class(ctor, AST) is None:
+        return False
+
+    def is_ctor(e):
+        return isinstance(e, ast.Call) and isinstance(e.func, ast.Name) and e.func.id == ctor
+
+    node = site.node
+    if isinstance(node, (ast.ListComp, ast.GeneratorExp)):
+        return is_ctor(node.elt)
+    if not isinstance(node, ast.For) or node.orelse:
+        return False
+    n_eff = 0
+
+    def block(stmts) -> bool:
+        nonlocal n_eff
+        for st in stmts:
+            if isinstance(st, ast.If):
+                if not (block(st.body) and block(st.orelse)):
+                    return False
+            elif isinstance(st, (ast.Pass, ast.Continue)):
+                continue
+            elif isinstance(st, ast.Expr) and isinstance(st.value, ast.Call) and isinstance(st.value.func, ast.Attribute) \
+                    and st.value.func.attr == 'append' and len(st.value.args) == 1 and is_ctor(st.value.args[0]):
+                n_eff += 1
+            elif isinstance(st, ast.Expr) and isinstance(st.value, ast.Yield) and st.value.value is not None and is_ctor(st.value.value):
+                n_eff += 1
+            else:
+                return False
+        return True
+
+    if not block(node.body) or not n_eff:
+        return False
+    fn = py.function(SLICER, site.function)
+    if fn is None:
+        return False
+    parents = {ch: p_ for p_ in ast.walk(fn) for ch in ast.iter_child_nodes(p_)}
+    return not OrderAnalysis._loop_var_escapes(fn, node, parents)
 
 
 def constructed_classes(py: PyRepo):
@@ -244,9 +277,9 @@ def run(ctx):
             continue
         if s.safe:
             ctx.ob('slice-order', f'{s.function}:{s.key}/{s.consumer}', True, s.why, py.where(SLICER, s.node))
-        elif (s.function, s.stable) in SLICER_SET_ITERATION_TRIAGED:
-            ctx.advisory(f'{s.function}: `{s.expr}` (set of {s.elem}) is iterated in an order-sensitive way ({s.consumer}); '
-                         + SLICER_SET_ITERATION_TRIAGED[(s.function, s.stable)])
+        elif only_disjoint_statements(py, s):
+            ctx.ob('slice-order', f'{s.function}:{s.key}/{s.consumer}', True,
+                   'only the order of the emitted `$d` statements depends on the iteration, and `$d` statements commute', py.where(SLICER, s.node))
         else:
             ctx.ob('slice-order', f'{s.function}:{s.key}/{s.consumer}', False,
                    f'{s.function}: `{s.expr}` (a set of {s.elem}) is iterated in an order-sensitive way ({s.consumer}): the order of what is '
@@ -584,6 +617,40 @@ def slice_closure(ctx, py: PyRepo):
     VC, c_site = decl_var('ConstantStatement')
     VM, v_site = decl_var('VariableStatement')
     ctx.require(VC is not None and VM is not None, 'supporting_database_for_provable: no `$c` / `$v` declaration is generated from a local set')
+    # ---- a `$d` restriction is kept exactly when all its variables are declared in the slice: the condition under which a pair of
+    #      the disjointness set (second parameter) is emitted is `pair <= VM`, nothing stronger and nothing weaker
+    def subset_of_vm(c, P):
+        return c in (f'{P}.issubset({VM})', f'{P} <= {VM}', f'{VM}.issuperset({P})', f'{VM} >= {P}',
+                     f'all(({P[:1]} in {VM} for {P[:1]} in {P}))')
+    n_d = 0
+    d_sites = []
+    for node in _own_nodes(fn):
+        if isinstance(node, ast.For) and ast.unparse(node.iter) == _GD and isinstance(node.target, ast.Name):
+            P = node.target.id
+            for sp in astpaths.paths(node.body):
+                emits = [c for a in sp.actions for c in ast.walk(a) if isinstance(c, ast.Call) and isinstance(c.func, ast.Name)
+                         and c.func.id == 'DisjointStatement']
+                d_sites.append((node, P, [(c, b) for c, b in sp.conds], bool(emits)))
+        elif isinstance(node, (ast.ListComp, ast.GeneratorExp)) and len(node.generators) == 1 and ast.unparse(node.generators[0].iter) == _GD \
+                and isinstance(node.generators[0].target, ast.Name) and isinstance(node.elt, ast.Call) \
+                and isinstance(node.elt.func, ast.Name) and node.elt.func.id == 'DisjointStatement':
+            P = node.generators[0].target.id
+            conds = [(c, b) for t in node.generators[0].ifs for way in astpaths._test(t, True)[:1] for c, b in way]
+            d_sites.append((node, P, conds, True))
+    for node, P, conds, emits in d_sites:
+        n_d += 1
+        if emits:
+            bad = [f'{c} is {b}' for c, b in conds if not (b and subset_of_vm(c, P))]
+            ok = not bad and any(b and subset_of_vm(c, P) for c, b in conds)
+            why = ('only under the further condition ' + ' and '.join(bad)) if bad else 'without requiring its variables to be declared'
+        else:
+            ok = not any(b and subset_of_vm(c, P) for c, b in conds)
+            why = 'not although all its variables are declared'
+        ctx.ob('slice-closure', 'disjoint-kept-iff-declared', ok,
+               f'a `$d` restriction `{P}` of `{_GD}` is emitted {why}: the slice must carry exactly the restrictions among the variables it '
+               f'declares (`{P} <= {VM}`) - one that is dropped lets a substitution through that the full database forbids, one over an '
+               f'undeclared variable does not parse', py.where(SLICER, node))
+    ctx.require(n_d >= 1, 'supporting_database_for_provable: the place where the `$d` restrictions are emitted was not found')
     # the grammar reads `$v token+ $.`: a `$v` statement without a variable does not parse.  A lemma and its cone may use no variable
     # at all, so the `$v` declaration must be emitted only on paths where the variable set is known to be non-empty.  (`$c` needs no
     # such guard: the lemma itself is scanned unconditionally and every statement starts with a constant, its typecode.)
@@ -677,6 +744,8 @@ def slice_closure(ctx, py: PyRepo):
             continue
         arg = n.args[-1]
         lp = loop_of.get(id(n))
+        if n.func.attr == 'extend' and isinstance(arg, (ast.ListComp, ast.GeneratorExp)):
+            arg = arg.elt                 # extending by a comprehension emits its element once per iteration
         if isinstance(arg, ast.Call) and isinstance(arg.func, ast.Name) and arg.func.id in ('ConstantStatement', 'VariableStatement', 'DisjointStatement'):
             emitted.append((top_index[id(n)], arg.func.id, {'decl:' + arg.func.id}, False, lp, n))
         elif isinstance(arg, ast.Call) and isinstance(arg.func, ast.Name) and arg.func.id == 'Block' and len(arg.args) == 1:
@@ -895,8 +964,6 @@ def parser_state_fresh(ctx, py: PyRepo):
 
 
 def _encl(tree, node) -> str:
-    best = '<module>'
-    for n in ast.walk(tree):
-        if isinstance(n, ast.FunctionDef) and n.lineno <= node.lineno <= getattr(n, 'end_lineno', n.lineno):
-            best = n.name
-    return best
+    from ..core.pyfacts import enclosing_def
+    f_ = enclosing_def(tree, node)
+    return f_.name if f_ is not None else '<module>'
